@@ -16,6 +16,7 @@ package main
 import (
 	"fmt"
 	"math/rand"
+	"os"
 	"sort"
 	"strconv"
 	"strings"
@@ -25,15 +26,7 @@ import (
 	. "verifh/lib"
 )
 
-var (
-	srvOnce sync.Once
-	srv     *Srv
-)
-
-func server() *Srv {
-	srvOnce.Do(func() { srv = StartSrv(nil) })
-	return srv
-}
+func server() *Srv { return ChildServer() }
 
 var phoneCtr int64
 var phoneMu sync.Mutex
@@ -372,76 +365,77 @@ func (g *seqGen) script(n int) {
 }
 
 // ---------------------------------------------------------------- main
+func batchInput(jobs []string) string { return "c12batch 8 " + strings.Join(jobs, ";") }
+
 func main() {
 	RegisterOp("wseq", implSeq)
 	RegisterOp("wexp", func(a []string) string { return "exp ok" })
-	RegisterOp("wscn", func(a []string) string { // wscn <kind> <seed>: rerun one concurrent scenario
+	RegisterOp("wscn", func(a []string) string { // wscn <kind> <seed>: rerun one concurrent scenario (in a child)
 		if len(a) < 2 {
 			return "bad-args"
 		}
-		seed, _ := strconv.ParseInt(a[1], 10, 64)
-		sc := GenW(a[0], seed)
-		h := RunW(server(), sc)
-		var v []string
-		for _, x := range h.Viol {
-			v = append(v, x.Sig+": "+x.Observed)
-		}
-		return fmt.Sprintf("scenario %s | history %s | violations %v", sc.Describe(), h.Request(), v)
+		return replayBatch(1, []string{"scn " + a[0] + " " + a[1]})
 	})
+	RegisterOp("c12batch", func(a []string) string { // c12batch <par> <job>;<job>;...
+		if len(a) < 2 {
+			return "bad-args"
+		}
+		par, _ := strconv.Atoi(a[0])
+		return replayBatch(par, strings.Split(strings.Join(a[1:], " "), ";"))
+	})
+	if len(os.Args) > 1 && os.Args[1] == "-child" {
+		ChildMain(os.Args[2:])
+		return
+	}
 	Main("C12", c12)
 }
 
-func c12(c *Ctx) {
-	c.Rule = "sequential scripts (wseq): random scripts of heartbeats, commands (7 command ids + 0x9003), responses of the 5 echoing types in any order, duplicates, unknown serials, unparsable bodies, 0x1003, timeouts, disconnect, executed step by step on a live server and compared token by token with the model; concurrent scenarios (wexp): 1..5 callers with timeouts 60-400 ms against a scripted terminal (answers delayed/late/twice/unknown/unparsable/never, heartbeats and location reports in between, serial wrap at 65535, close/RST), the recorded history must be explained by a schedule of the model and pass the direct oracle; a case is non-trivial when it contains at least one command written to the terminal; distinct = distinct request lines"
-	server()
-	// ---- sequential scripts
-	nseq := 36
-	if !c.Quick() {
-		nseq = 400
-	}
-	var mu sync.Mutex
-	var wg sync.WaitGroup
-	type seqRes struct{ req, ans string; what map[string]bool }
-	res := make([]seqRes, nseq)
-	sem := make(chan struct{}, 6)
-	for i := 0; i < nseq; i++ {
-		g := &seqGen{rng: rand.New(rand.NewSource(c.Rng.Int63())), what: map[string]bool{}}
-		g.script(6 + g.rng.Intn(14))
-		req := "wseq 0 " + strings.Join(g.toks, " ")
-		wg.Add(1)
-		sem <- struct{}{}
-		go func(i int, req string, what map[string]bool) {
-			defer wg.Done()
-			defer func() { <-sem }()
-			ans := RunOp(req)
-			mu.Lock()
-			res[i] = seqRes{req, ans, what}
-			mu.Unlock()
-		}(i, req, g.what)
-	}
-	wg.Wait()
-	for _, r := range res {
-		c.Case(r.req, r.ans, strings.Contains(r.ans, "W"))
-		c.Count("seq")
-		for k := range r.what {
-			c.Count("seq:" + k)
+func replayBatch(par int, jobs []string) string {
+	r := RunBatch(SelfExe(), nil, par, jobs, 120*time.Second)
+	var v []string
+	for _, o := range r.Outs {
+		for _, x := range o.Viol {
+			v = append(v, fmt.Sprintf("[%s] %s: %s", o.Line, x.Sig, x.Observed))
+		}
+		if o.Ans != "" {
+			v = append(v, fmt.Sprintf("[%s] => %s", Trunc(o.Line, 80), o.Ans))
+		}
+		if o.Req != "" && len(jobs) == 1 {
+			v = append(v, "history: "+o.Req)
 		}
 	}
-	// ---- concurrent scenarios
-	kinds := []string{"burst", "burst", "order", "late", "dup", "unknown", "bad", "never", "mixed", "mixed", "attr", "notmo", "prejoin",
-		"close-outstanding", "close-afterresp", "close-queued"}
-	per := 9
+	return fmt.Sprintf("child crash=%q jobs-reported=%d/%d %v", r.Crash, len(r.Outs), len(jobs), v)
+}
+
+func c12(c *Ctx) {
+	c.Rule = "sequential scripts (wseq): random scripts of heartbeats, commands (7 command ids + 0x9003), responses of the 5 echoing types in any order, duplicates, unknown serials, unparsable bodies, 0x1003, timeouts, disconnect, executed step by step on a live server and compared token by token with the model; concurrent scenarios (wexp): 1..8 callers with timeouts 60-600 ms against a scripted terminal (answers delayed/late/twice/unknown/unparsable/never, 5-8 answers in one TCP segment, heartbeats and location reports in between, serial wrap at 65535, close/RST), the recorded history must be explained by a schedule of the model and pass the direct oracle; the server runs in child processes (a crash is an observation); a case is non-trivial when it contains at least one command written to the terminal; distinct = distinct request lines"
+	// ---- jobs
+	nseq := 60
 	if !c.Quick() {
-		per = 150
+		nseq = 600
 	}
-	type job struct {
+	type jobT struct {
+		line string
+		what map[string]bool
 		kind string
 		seed int64
 	}
-	var jobs []job
+	var jobs []jobT
+	for i := 0; i < nseq; i++ {
+		g := &seqGen{rng: rand.New(rand.NewSource(c.Rng.Int63())), what: map[string]bool{}}
+		g.script(6 + g.rng.Intn(14))
+		jobs = append(jobs, jobT{line: "op wseq 0 " + strings.Join(g.toks, " "), what: g.what})
+	}
+	kinds := []string{"burst", "burst", "order", "late", "dup", "unknown", "bad", "never", "mixed", "mixed", "attr", "notmo", "prejoin",
+		"close-outstanding", "close-afterresp", "close-queued"}
+	per := 12
+	if !c.Quick() {
+		per = 150
+	}
 	for _, k := range kinds {
 		for i := 0; i < per; i++ {
-			jobs = append(jobs, job{k, c.Rng.Int63n(90000000)})
+			seed := c.Rng.Int63n(90000000)
+			jobs = append(jobs, jobT{line: fmt.Sprintf("scn %s %d", k, seed), kind: k, seed: seed})
 		}
 	}
 	nwrap := 1
@@ -449,39 +443,79 @@ func c12(c *Ctx) {
 		nwrap = 6
 	}
 	for i := 0; i < nwrap; i++ {
-		jobs = append(jobs, job{"wrap", c.Rng.Int63n(90000000)})
+		seed := c.Rng.Int63n(90000000)
+		jobs = append(jobs, jobT{line: fmt.Sprintf("scn wrap %d", seed), kind: "wrap", seed: seed})
 	}
-	hists := make([]*WHist, len(jobs))
-	sem2 := make(chan struct{}, 10)
-	for i, j := range jobs {
+	c.Rng.Shuffle(len(jobs), func(i, j int) { jobs[i], jobs[j] = jobs[j], jobs[i] })
+	// ---- batches, each in its own child process
+	const bsz = 24
+	type batch struct {
+		jobs []jobT
+		r    BatchRes
+	}
+	var batches []*batch
+	for i := 0; i < len(jobs); i += bsz {
+		e := i + bsz
+		if e > len(jobs) {
+			e = len(jobs)
+		}
+		batches = append(batches, &batch{jobs: jobs[i:e]})
+	}
+	var wg sync.WaitGroup
+	sem := make(chan struct{}, 3)
+	for _, b := range batches {
 		wg.Add(1)
-		sem2 <- struct{}{}
-		go func(i int, j job) {
+		sem <- struct{}{}
+		go func(b *batch) {
 			defer wg.Done()
-			defer func() { <-sem2 }()
-			h := RunW(server(), GenW(j.kind, j.seed))
-			mu.Lock()
-			hists[i] = h
-			mu.Unlock()
-		}(i, j)
+			defer func() { <-sem }()
+			var lines []string
+			for _, j := range b.jobs {
+				lines = append(lines, j.line)
+			}
+			b.r = RunBatch(SelfExe(), nil, 8, lines, 120*time.Second)
+		}(b)
 	}
 	wg.Wait()
-	for i, h := range hists {
-		j := jobs[i]
-		c.Count("scn:" + j.kind)
-		var ks []string
-		for k, n := range h.Kinds {
-			c.Dist["result:"+k] += n
-			ks = append(ks, k)
+	for _, b := range batches {
+		var lines []string
+		for _, j := range b.jobs {
+			lines = append(lines, j.line)
 		}
-		sort.Strings(ks)
-		input := fmt.Sprintf("wscn %s %d", j.kind, j.seed)
-		for _, v := range h.Viol {
-			c.Violate(Violation{Signature: "C12/" + v.Sig, What: v.What, Input: input,
-				Observed: v.Observed + " | " + GenW(j.kind, j.seed).Describe() + " | " + h.Request(), Required: v.Required})
+		if b.r.Crash != "" {
+			c.Violate(Violation{Signature: "C12/crash", What: "the server process died while commands and responses were exchanged",
+				Input: batchInput(lines), Observed: b.r.Crash, Required: "the server process keeps running"})
 		}
-		if len(h.Items) > 0 {
-			c.Case(h.Request(), "exp ok", h.NCalls > 0 && strings.Contains(h.Request(), "F/W"))
+		if b.r.Slow {
+			c.Count("batch-killed-at-time-limit")
+		}
+		sort.Slice(b.r.Outs, func(i, j int) bool { return b.r.Outs[i].Job < b.r.Outs[j].Job })
+		for _, o := range b.r.Outs {
+			if o.Job >= len(b.jobs) {
+				continue
+			}
+			j := b.jobs[o.Job]
+			if j.kind == "" { // sequential script
+				req := strings.TrimPrefix(j.line, "op ")
+				c.Case(req, o.Ans, strings.Contains(o.Ans, "W"))
+				c.Count("seq")
+				for k := range j.what {
+					c.Count("seq:" + k)
+				}
+				continue
+			}
+			c.Count("scn:" + j.kind)
+			for k, n := range o.Kinds {
+				c.Dist["result:"+k] += n
+			}
+			input := fmt.Sprintf("wscn %s %d", j.kind, j.seed)
+			for _, v := range o.Viol {
+				c.Violate(Violation{Signature: "C12/" + v.Sig, What: v.What, Input: input,
+					Observed: v.Observed + " | " + o.Desc + " | " + o.Req, Required: v.Required})
+			}
+			if strings.Contains(o.Req, "/") {
+				c.Case(o.Req, "exp ok", o.N > 0 && strings.Contains(o.Req, "F/W"))
+			}
 		}
 	}
 }
